@@ -2455,13 +2455,22 @@ class SymEx:
         x = st.ev(Ev('enter', fn=callee.qn, site=self.site(node), caller=self.fn.qn))
         paths = self.run(callee, bound, self_term, x)
         out = []
+        gen_ = _is_generator(callee) and not any(isinstance(n_, ast.YieldFrom) for n_ in ast.walk(callee.node))
         for p in paths:
             s = p.state.copy()
             s.env = dict(saved_env)
             if getattr(p, 'cm_frame', None) is not None:
                 s.env['@cm'] = p.cm_frame
             s.events = s.events + (Ev('exit', fn=callee.qn, outcome=p.outcome),)
-            out.append((s, p.value if p.value is not None else NONE))
+            val_ = p.value if p.value is not None else NONE
+            if gen_ and (p.value is None or p.value == NONE) and p.outcome in ('fall', 'return') and s.exc is None:
+                # a generator whose yields on this path are straight-line (none inside a loop): consumed, it is the sequence of the values it yields, in order
+                new_ev = p.state.events[len(x.events):]
+                ys_ = [e_ for e_ in new_ev if e_.kind == 'yield']
+                looped_ = any(e_.kind == 'loop' and any(y_.kind == 'yield' for q_ in (list(e_.paths) + list(getattr(e_, 'all_paths', ()) or ())) for y_ in q_.flat_events()) for e_ in new_ev)
+                if ys_ and not looped_:
+                    val_ = ('list', tuple(e_.value for e_ in ys_))
+            out.append((s, val_))
         return out
 
     def construct(self, cls, bound, st, node):
@@ -2811,6 +2820,8 @@ class SymEx:
                 name = T.API_CLASS.get(ext, ext)
                 if name == 'COPY' and len(args) == 1 and not kws:
                     return [(st, args[0])]
+                if ext == 'dataclasses.replace' and self._dc_replace(args, kws) is not None:
+                    return [(st, self._dc_replace(args, kws))]
                 if ext in ('math.floor', 'math.ceil', 'math.trunc') and len(args) == 1:
                     # math.floor/ceil/trunc return an int: int(<class>(x))
                     inner = ('call', ('ext', name), tuple(args), ())
@@ -3106,6 +3117,22 @@ class SymEx:
                 return [(st, T.replace(fv[2], lambda z: m.get(z) if z[0] == 'bv' else None))]
         return self.call_opaque(e, fv, args, kwargs, st)
 
+    def _dc_replace(self, args, kws):
+        """dataclasses.replace(record, f=v, ...) on a record built on this path: the same record with those fields set (the generated __init__ assigns each field
+        from the argument of its name; a class with __post_init__ or a hand-written __init__ is not read this way)"""
+        if len(args) != 1 or args[0][0] != 'new' or not kws:
+            return None
+        c = self.M.cls(args[0][1])
+        if c is None or c.lookup('__post_init__') is not None or '__init__' in c.methods:
+            return None
+        if not any(ast.unparse(d.func if isinstance(d, ast.Call) else d).split('.')[-1] == 'dataclass' for d in c.node.decorator_list):
+            return None
+        have = dict(args[0][2])
+        if any(k not in have for k, _ in kws):
+            return None
+        have.update(dict(kws))
+        return ('new', args[0][1], tuple(sorted(have.items())))
+
     def nt_method(self, e, recv, name, args, kwargs, st):
         if recv[0] == 'nt':
             tname, fields = recv[1], tuple(recv[2].split(','))
@@ -3157,6 +3184,8 @@ class SymEx:
             return [(st, ('list', ()))]          # nothing to order
         if fv == ('ext', 'COPY') and len(args) == 1 and not kws:
             return [(st, args[0])]
+        if fv == ('ext', 'dataclasses.replace') and self._dc_replace(args, kws) is not None:
+            return [(st, self._dc_replace(args, kws))]
         if fv in (('ext', 'LIST'), ('ext', 'TUPLE')) and len(args) == 1 and not kws and args[0][0] in ('tuple', 'list') and not any(z_[0] == 'starred' for z_ in args[0][1]) \
                 and all(z_[0] in ('str', 'num', 'const') for z_ in args[0][1]):
             return [(st, ('list' if fv[1] == 'LIST' else 'tuple', args[0][1]))]          # list(('a', 'b')) of constants written out
@@ -3193,6 +3222,12 @@ class SymEx:
             for z in args[0][1]:
                 d_[z[1][0]] = z[1][1]
             return [(st, ('dict', tuple(d_.items())))]
+        if fv == ('ext', 'functools.reduce') and len(args) == 2 and not kws and args[0] == ('ext', 'operator.add') and args[1][0] in ('list', 'tuple') and args[1][1] \
+                and not any(z[0] == 'starred' for z in args[1][1]):
+            tot = args[1][1][0]                                     # a left fold of + over a written-out sequence
+            for z in args[1][1][1:]:
+                tot = T.t_add(tot, z)
+            return [(st, tot)]
         if fv == ('ext', 'functools.reduce') and len(args) == 3 and not kws and args[0] == ('ext', 'operator.add') and args[2] == ZERO:
             return self.call_opaque(e, ('ext', 'SUM'), [args[1]], [], st, how)        # a left fold of + from 0 is sum()
         if fv == ('ext', 'DICT') and len(args) == 1 and not kws and args[0][0] == 'comp' and args[0][1] in ('gen', 'list') and \
